@@ -348,9 +348,10 @@ def edit_constant(parameterized):
     # from them inside the block (for another instance or a subclass)
     # would stay unlocked after it.
     updated = []
-    for pname in list(parameterized.param):
-        pobj = parameterized.param[pname]
+    for pname, pobj in parameterized.param.objects('existing').items():
         if pobj.constant:
+            # (an instance's own Parameter, created now if need be)
+            pobj = parameterized.param[pname]
             pobj.constant = False
             updated.append(pobj)
     _edit_constant_blocks.append(updated)
